@@ -108,13 +108,21 @@ func (t *Directive) Validate(root *Root) (errs []error) {
 				ErrValidation, t.Name(), a.Name(), a.Type, a.line, a.col))
 		} else if co, _ := a.Type.(InCoercer); co != nil {
 			if a.Default != nil {
-				if v, err := co.CoerceIn(a.Default); err != nil {
+				// Coercing fills in the defaults of input objects in place so
+				// it is done on a copy. The directive can be one of an earlier
+				// load that has to stay as it is if this load fails.
+				if v, err := co.CoerceIn(copyValue(a.Default)); err != nil {
 					errs = append(errs, fmt.Errorf("%w at %d:%d", err, a.line, a.col))
 				} else {
 					// Might as well replace the coerced value since it is really
-					// what is needed. (No comparison first, lists and objects
-					// are not comparable.)
-					a.Default = v
+					// what is needed, once the load is known to be valid. (No
+					// comparison first, lists and objects are not comparable.)
+					a := a
+					if root.coerced == nil {
+						a.Default = v
+					} else {
+						root.coerced = append(root.coerced, func() { a.Default = v })
+					}
 				}
 			}
 		} else {
